@@ -617,10 +617,15 @@ def orOtherRow (r : PRow) : Bool :=
 /-- … and some translatable column carries a language on either sheet -/
 def translated (pairs : List (Str × Str)) : Bool := pairs.any fun p => p.2 ≠ defaultLang
 
-/-- (sheet, language, column) triples due on one sheet -/
+/-- each element once -/
+def dedup : List Str → List Str
+  | [] => []
+  | x :: xs => if xs.contains x then dedup xs else x :: dedup xs
+
+/-- (sheet, language, column) triples due on one sheet, each once -/
 def missingDue (sheet : String) (pairs : List (Str × Str)) : List W :=
-  (pairs.map (·.2)).eraseDups.flatMap fun l =>
-    ((pairs.map (·.1)).eraseDups.filter fun c => trMissing pairs l c).map fun c => W.missingTr sheet.toList l c
+  (dedup (pairs.map (·.2))).flatMap fun l =>
+    ((dedup (pairs.map (·.1))).filter fun c => trMissing pairs l c).map fun c => W.missingTr sheet.toList l c
 
 def choiceDue (rows : List (Nat × PRow)) : List W :=
   rows.filterMap fun nr => if (val1 nr.2 "list name").isSome && !keyIn nr.2 "label" then some (W.choiceNoLabel nr.1) else none
